@@ -9,6 +9,7 @@ import (
 	"go/ast"
 	"go/token"
 	"go/types"
+	"sort"
 	"strings"
 )
 
@@ -21,6 +22,11 @@ type dynCompiler struct {
 	dynSub map[string]bool   // the substituted expression already has type any
 	lets   []*LetDef
 	bound  map[string]bool // quantifier variables (Go ints)
+	mapKey map[string]bool // quantifier variables ranging over the keys of a map (dynamic values)
+	// field names that must be read through reflection (unexported fields of another package's struct)
+	dynFields map[string]bool
+	// Go types of the program variables the clause can name (parameters, results), for choosing receiver predicates
+	varTypes map[string]types.Type
 	failed string
 	depth  int
 }
@@ -52,6 +58,133 @@ func (g *dynCompiler) nameable(x ast.Expr) bool {
 	return false
 }
 
+func derefType(t types.Type) types.Type {
+	if p, ok := t.Underlying().(*types.Pointer); ok {
+		return p.Elem()
+	}
+	return t
+}
+
+// typeOf: best-effort Go type of a contract expression that denotes a program value (nil when unknown).
+func (g *dynCompiler) typeOf(x ast.Expr) types.Type {
+	switch v := x.(type) {
+	case *ast.ParenExpr:
+		return g.typeOf(v.X)
+	case *ast.Ident:
+		if t, ok := g.varTypes[v.Name]; ok {
+			return t
+		}
+		for _, l := range g.lets {
+			if l.Name == v.Name {
+				if g.depth > 30 {
+					return nil
+				}
+				g.depth++
+				defer func() { g.depth-- }()
+				return g.typeOf(l.Expr)
+			}
+		}
+	case *ast.StarExpr:
+		if t := g.typeOf(v.X); t != nil {
+			return derefType(t)
+		}
+	case *ast.SelectorExpr:
+		if t := g.typeOf(v.X); t != nil {
+			obj, _, _ := types.LookupFieldOrMethod(t, true, g.pkg, v.Sel.Name)
+			if f, ok := obj.(*types.Var); ok {
+				return f.Type()
+			}
+			// unexported field of another package: look it up in that package
+			if n := namedOf(derefType(t)); n != nil {
+				obj, _, _ := types.LookupFieldOrMethod(t, true, n.Obj().Pkg(), v.Sel.Name)
+				if f, ok := obj.(*types.Var); ok {
+					return f.Type()
+				}
+			}
+		}
+	case *ast.IndexExpr:
+		if t := g.typeOf(v.X); t != nil {
+			switch u := t.Underlying().(type) {
+			case *types.Slice:
+				return u.Elem()
+			case *types.Array:
+				return u.Elem()
+			case *types.Map:
+				return u.Elem()
+			}
+		}
+	case *ast.CallExpr:
+		if id, ok := v.Fun.(*ast.Ident); ok && (id.Name == "dyn" || id.Name == "old") && len(v.Args) >= 1 {
+			if id.Name == "old" {
+				return g.typeOf(v.Args[0])
+			}
+			return g.typeExpr(v.Args[1])
+		}
+	}
+	return nil
+}
+
+// typeExpr resolves a type written in a contract (T, *T, pkg.T, *pkg.T).
+func (g *dynCompiler) typeExpr(x ast.Expr) types.Type {
+	switch v := x.(type) {
+	case *ast.ParenExpr:
+		return g.typeExpr(v.X)
+	case *ast.StarExpr:
+		if t := g.typeExpr(v.X); t != nil {
+			return types.NewPointer(t)
+		}
+	case *ast.Ident:
+		if g.pkg != nil {
+			if o, ok := g.pkg.Scope().Lookup(v.Name).(*types.TypeName); ok {
+				return o.Type()
+			}
+		}
+	case *ast.SelectorExpr:
+		if id, ok := v.X.(*ast.Ident); ok {
+			if p := g.eng.pkgByName(id.Name); p != nil {
+				if o, ok := p.Scope().Lookup(v.Sel.Name).(*types.TypeName); ok {
+					return o.Type()
+				}
+			}
+		}
+	}
+	return nil
+}
+
+// hasGuardMap: for a quantifier body implies(A, B) whose antecedent has the conjunct has(M, k), the map expression M.
+func hasGuardMap(body ast.Expr, k string) ast.Expr {
+	call, ok := body.(*ast.CallExpr)
+	if !ok {
+		return nil
+	}
+	id, ok := call.Fun.(*ast.Ident)
+	if !ok || id.Name != "implies" || len(call.Args) != 2 {
+		return nil
+	}
+	var find func(e ast.Expr) ast.Expr
+	find = func(e ast.Expr) ast.Expr {
+		switch x := e.(type) {
+		case *ast.ParenExpr:
+			return find(x.X)
+		case *ast.BinaryExpr:
+			if x.Op == token.LAND {
+				if m := find(x.X); m != nil {
+					return m
+				}
+				return find(x.Y)
+			}
+		case *ast.CallExpr:
+			if f, ok := x.Fun.(*ast.Ident); ok && f.Name == "has" && len(x.Args) == 2 {
+				if kid, ok := x.Args[1].(*ast.Ident); ok && kid.Name == k {
+					return x.Args[0]
+				}
+			}
+		}
+		return nil
+	}
+	return find(call.Args[0])
+}
+
 func (g *dynCompiler) isLet(name string) bool {
 	for _, l := range g.lets {
 		if l.Name == name {
@@ -70,6 +203,9 @@ func (g *dynCompiler) static(x ast.Expr) (string, bool) {
 	case *ast.Ident:
 		switch v.Name {
 		case "true", "false", "nil":
+			return "", false
+		}
+		if g.mapKey[v.Name] {
 			return "", false
 		}
 		if g.bound[v.Name] {
@@ -98,6 +234,9 @@ func (g *dynCompiler) static(x ast.Expr) (string, bool) {
 		}
 		return v.Name, true
 	case *ast.SelectorExpr:
+		if g.dynFields[v.Sel.Name] {
+			return "", false
+		}
 		if s, ok := g.static(v.X); ok {
 			return s + "." + v.Sel.Name, true
 		}
@@ -106,6 +245,9 @@ func (g *dynCompiler) static(x ast.Expr) (string, bool) {
 			return "(*" + s + ")", true
 		}
 	case *ast.IndexExpr:
+		if id, ok := v.Index.(*ast.Ident); ok && g.mapKey[id.Name] {
+			return "", false // map lookup by a quantified key: evaluated through reflection
+		}
 		if s, ok := g.static(v.X); ok {
 			return s + "[verifInt(" + g.expr(v.Index) + ")]", true
 		}
@@ -159,6 +301,9 @@ func (g *dynCompiler) expr(x ast.Expr) string {
 			return "any(" + v.Name + ")"
 		case "nil":
 			return "any(verifNil{})"
+		}
+		if g.mapKey[v.Name] {
+			return v.Name
 		}
 		if s, ok := g.subst[v.Name]; ok {
 			return s // dynamic substitution
@@ -214,7 +359,7 @@ func (g *dynCompiler) call(v *ast.CallExpr) string {
 	if id, ok := v.Fun.(*ast.Ident); ok {
 		switch id.Name {
 		case "old":
-			sub := &dynCompiler{eng: g.eng, pkg: g.pkg, pc: g.pc, subst: g.subst, dynSub: g.dynSub, lets: g.lets, bound: g.bound}
+			sub := &dynCompiler{eng: g.eng, pkg: g.pkg, pc: g.pc, subst: g.subst, dynSub: g.dynSub, lets: g.lets, bound: g.bound, mapKey: g.mapKey, dynFields: g.dynFields, varTypes: g.varTypes}
 			e := sub.expr(v.Args[0])
 			if sub.failed != "" {
 				return g.fail(sub.failed)
@@ -246,10 +391,11 @@ func (g *dynCompiler) call(v *ast.CallExpr) string {
 			}
 			return g.fail("iserr of a computed value")
 		case "typeis":
-			if s, ok := g.static(v.Args[0]); ok {
+			if s, ok := g.static(v.Args[0]); ok && g.nameable(v.Args[1]) {
 				return "any(verifTypeIs[" + types.ExprString(v.Args[1]) + "](" + s + "))"
 			}
-			return g.fail("typeis of a computed value")
+			// a type the test cannot name: compare reflect's spelling of the dynamic type
+			return "any(verifTypeName(" + arg(0) + ") == \"" + types.ExprString(v.Args[1]) + "\")"
 		case "forall", "exists":
 			if len(v.Args) >= 4 {
 				k := v.Args[0].(*ast.Ident).Name
@@ -262,8 +408,27 @@ func (g *dynCompiler) call(v *ast.CallExpr) string {
 				g.bound[k] = was
 				return fmt.Sprintf("verifQuant(%q, %s, %s, func(%s int) any { return %s })", id.Name, arg(1), arg(2), k, body)
 			}
+			// forall(k, T, implies(has(M, k) && ..., body)): the keys of M are the only ones that matter
+			if len(v.Args) == 3 && id.Name == "forall" {
+				if m := hasGuardMap(v.Args[2], v.Args[0].(*ast.Ident).Name); m != nil {
+					k := v.Args[0].(*ast.Ident).Name
+					if g.mapKey == nil {
+						g.mapKey = map[string]bool{}
+					}
+					was := g.mapKey[k]
+					g.mapKey[k] = true
+					body := g.expr(v.Args[2])
+					g.mapKey[k] = was
+					return fmt.Sprintf("verifQuantMap(%s, func(%s any) any { return %s })", g.expr(m), k, body)
+				}
+			}
 			return g.fail("unbounded quantifier (not executable)")
-		case "isfresh", "samearray", "alias", "lastresult", "lastresultb", "lastarg", "callarg", "ufi", "uf", "ufb", "called", "calledinloop", "in", "has", "forall2", "trig", "atrig":
+		case "has":
+			if len(v.Args) == 2 {
+				return "verifHas(" + arg(0) + ", " + arg(1) + ")"
+			}
+			return g.fail("has: arity")
+		case "isfresh", "samearray", "alias", "lastresult", "lastresultb", "lastarg", "callarg", "ufi", "uf", "ufb", "called", "calledinloop", "in", "forall2", "trig", "atrig":
 			return g.fail("clause uses " + id.Name + " (not executable)")
 		}
 		if sf := findSpecIn(g.eng, g.pc, id.Name, ""); sf != nil {
@@ -290,8 +455,40 @@ func (g *dynCompiler) call(v *ast.CallExpr) string {
 				}
 			}
 		}
-		for _, pc := range g.eng.db.Pkgs {
-			for key, sf := range pc.Specs {
+		// receiver predicate x.p(...): predicates are keyed "<RecvType>.<name>". The receiver's type is worked out where
+		// the expression allows (variables, fields, dyn(x, T)); otherwise the current package's predicates are preferred
+		// (names like inv() recur across packages)
+		if rt := g.typeOf(sel.X); rt != nil {
+			if n := namedOf(derefType(rt)); n != nil && n.Obj().Pkg() != nil {
+				if pc := g.eng.db.Pkgs[n.Obj().Pkg().Path()]; pc != nil {
+					if sf, ok := pc.Specs[n.Obj().Name()+"."+sel.Sel.Name]; ok {
+						return g.inlineSpec(sf, sel.X, v.Args)
+					}
+				}
+			}
+		}
+		var order []*PkgContracts
+		if g.pc != nil {
+			order = append(order, g.pc)
+		}
+		var rest []string
+		for path := range g.eng.db.Pkgs {
+			rest = append(rest, path)
+		}
+		sort.Strings(rest)
+		for _, path := range rest {
+			if pc := g.eng.db.Pkgs[path]; pc != g.pc {
+				order = append(order, pc)
+			}
+		}
+		for _, pc := range order {
+			var keys []string
+			for key := range pc.Specs {
+				keys = append(keys, key)
+			}
+			sort.Strings(keys)
+			for _, key := range keys {
+				sf := pc.Specs[key]
 				if sf.RecvType != "" && strings.HasSuffix(key, "."+sel.Sel.Name) && sf.Name == sel.Sel.Name {
 					return g.inlineSpec(sf, sel.X, v.Args)
 				}
@@ -334,7 +531,7 @@ func (g *dynCompiler) inlineSpec(sf *SpecFunc, recv ast.Expr, args []ast.Expr) s
 	if recv != nil {
 		bindArg(sf.RecvName, recv)
 	}
-	sub := &dynCompiler{eng: g.eng, pkg: g.pkg, pc: g.eng.db.Pkgs[sf.Pkg], subst: ns, dynSub: nd, depth: g.depth, bound: g.bound}
+	sub := &dynCompiler{eng: g.eng, pkg: g.pkg, pc: g.eng.db.Pkgs[sf.Pkg], subst: ns, dynSub: nd, depth: g.depth, bound: g.bound, mapKey: g.mapKey, dynFields: g.dynFields, varTypes: g.varTypes}
 	r := sub.expr(sf.Body)
 	if sub.failed != "" {
 		return g.fail(sub.failed)
@@ -446,6 +643,12 @@ func verifIsErr(e error, code uint64) bool {
 	if e == nil { return false }
 	return verifErrCode(e) == code
 }
+func verifTypeName(x any) string {
+	rv := verifRV(x)
+	if !rv.IsValid() { return "<nil>" }
+	if rv.Kind() == reflect.Interface { if rv.IsNil() { return "<nil>" }; rv = rv.Elem() }
+	return rv.Type().String()
+}
 func verifHolds(f func() any) (ok bool) {
 	defer func() { if recover() != nil { ok = false } }()
 	return verifBool(f())
@@ -480,7 +683,42 @@ func verifGet(x any, name string) any {
 	if !f.IsValid() { panic("verif: no field " + name) }
 	return verifOut(f)
 }
-func verifIndex(x any, i any) any { return verifOut(verifUnwrap(x).Index(verifInt(i))) }
+func verifMapKey(m reflect.Value, k any) reflect.Value {
+	kt := m.Type().Key()
+	if rv := verifRV(k); rv.IsValid() && rv.Type() == kt { return rv }
+	kv := reflect.New(kt).Elem()
+	n, ok := verifNum(k)
+	if !ok { panic(fmt.Sprintf("verif: map key %T", k)) }
+	switch kv.Kind() {
+	case reflect.Int, reflect.Int8, reflect.Int16, reflect.Int32, reflect.Int64: kv.SetInt(n.Int64())
+	case reflect.Uint, reflect.Uint8, reflect.Uint16, reflect.Uint32, reflect.Uint64, reflect.Uintptr: kv.SetUint(n.Uint64())
+	default: panic("verif: map key kind " + kv.Kind().String())
+	}
+	return kv
+}
+func verifIndex(x any, i any) any {
+	rv := verifUnwrap(x)
+	if rv.Kind() == reflect.Map {
+		e := rv.MapIndex(verifMapKey(rv, i))
+		if !e.IsValid() { e = reflect.Zero(rv.Type().Elem()) }
+		c := reflect.New(e.Type()).Elem(); c.Set(e)
+		return verifOut(c)
+	}
+	return verifOut(rv.Index(verifInt(i)))
+}
+func verifHas(m any, k any) any {
+	rv := verifRV(m)
+	if rv.Kind() != reflect.Map || rv.IsNil() { return false }
+	return rv.MapIndex(verifMapKey(rv, k)).IsValid()
+}
+func verifQuantMap(m any, f func(any) any) any {
+	rv := verifRV(m)
+	if rv.Kind() != reflect.Map { panic("verif: quantifier over a non-map") }
+	for _, k := range rv.MapKeys() {
+		if !verifBool(f(k.Interface())) { return false }
+	}
+	return true
+}
 func verifDeref(x any) any { return verifOut(verifRV(x).Elem()) }
 func verifLenCap(op string, x any) any {
 	rv := verifRV(x)
